@@ -317,20 +317,29 @@ Judge(s, e) == JudgeHard(s, e) \cup JudgeSoft(s, e)
 
 (*--------------------------- next state -----------------------------------*)
 (* mutating calls follow the OBSERVED outcome, so that later events are     *)
-(* judged against the forest the server really holds                        *)
+(* judged against the forest the server really holds.  The abstract forest *)
+(* is kept closed (every superclass exists; hence acyclic) even when the   *)
+(* server misbehaves: a class accepted without its superclass, or one that *)
+(* survives the deletion of its superclass, is kept as a root.             *)
 ApplyOp(s, e) ==
   CASE e.op \in {"Create", "Modify", "Compile"} ->
          IF ~e.ok \/ e.super = e.name THEN s
          ELSE IF e.name \in DOMAIN s.cls
          THEN (IF e.op = "Create" THEN s ELSE [s EXCEPT !.cls[e.name].d = e.d])
          ELSE IF e.op = "Modify" THEN s
-         ELSE [s EXCEPT !.cls = (e.name :> [super |-> e.super, d |-> e.d]) @@ @]
+         ELSE [s EXCEPT !.cls =
+                 (e.name :> [super |-> IF e.super \in DOMAIN s.cls
+                                       THEN e.super ELSE "",
+                             d |-> e.d]) @@ @]
     [] e.op = "CreateInst" ->
          IF e.ok THEN [s EXCEPT !.insts = @ \cup {<<e.name, e.key>>}] ELSE s
     [] e.op = "Delete" ->
          IF e.name \in DOMAIN s.cls
-         THEN [s EXCEPT
-                 !.cls = [x \in (DOMAIN s.cls) \cap Rng(e.after) |-> s.cls[x]],
+         THEN LET keep == (DOMAIN s.cls) \cap Rng(e.after) IN
+              [s EXCEPT
+                 !.cls = [x \in keep |->
+                            IF s.cls[x].super \in keep \cup {""} THEN s.cls[x]
+                            ELSE [s.cls[x] EXCEPT !.super = ""]],
                  !.insts = @ \cap Rng(e.iafter)]
          ELSE s
     [] OTHER -> s
